@@ -1025,7 +1025,13 @@ def _blocks_of(fn):
 def _captured(fn, name):
     for n in ast.walk(fn):
         if n is not fn and isinstance(n, FuncTypes + (ast.Lambda, ast.GeneratorExp)):
-            if _occ(n, name):
+            occ = _occ(n, name)
+            if isinstance(n, ast.GeneratorExp):
+                # the first iterable of a generator expression is evaluated on the spot, in the enclosing scope
+                first = {id(x) for x in ast.walk(n.generators[0].iter)}
+                inner = [x for g in ast.walk(n.generators[0].iter) if isinstance(g, (ast.Lambda, ast.GeneratorExp)) for x in ast.walk(g)]
+                occ = [x for x in occ if id(x) not in first or any(x is y for y in inner)]
+            if occ:
                 return True
     return False
 
@@ -1124,6 +1130,21 @@ def cleanup_copies(fn, only=None):
         before the last of them: a is b.
     ``only``: predicate on the name a (e.g. temporaries made by the inliner)."""
     changed_any = False
+    # ``if c: <raise / return> else: a = b``  (what in-lining a helper that ends in ``return b`` after a guard leaves behind):
+    # the copy follows the ``if``
+    for blk in _blocks_of(fn):
+        i = 0
+        while i < len(blk):
+            st = blk[i]
+            if isinstance(st, ast.If) and st.body and isinstance(st.body[-1], (ast.Raise, ast.Return)) and st.orelse \
+                    and all(isinstance(x, ast.Assign) and len(x.targets) == 1 and isinstance(x.targets[0], ast.Name)
+                            and isinstance(x.value, ast.Name) and ("__in" in x.value.id or "__in" in x.targets[0].id)
+                            for x in st.orelse):
+                moved = list(st.orelse)
+                st.orelse = []
+                blk[i + 1:i + 1] = moved
+                changed_any = True
+            i += 1
     for _ in range(10):
         changed = False
         for blk in _blocks_of(fn):
@@ -1134,8 +1155,38 @@ def cleanup_copies(fn, only=None):
                 a, b = st.targets[0].id, st.value.id
                 if only is not None and not (only(a) or only(b)):
                     continue
-                if _captured(fn, a) or _captured(fn, b):
+                if _captured(fn, a):
                     continue
+                if _captured(fn, b):
+                    # closures over b are harmless to the round trip when they are all created after it is closed
+                    rt = None
+                    for j in range(i + 1, len(blk)):
+                        sj = blk[j]
+                        if isinstance(sj, ast.Assign) and len(sj.targets) == 1 and isinstance(sj.targets[0], ast.Name) \
+                                and sj.targets[0].id == b and isinstance(sj.value, ast.Name) and sj.value.id == a:
+                            rt = j
+                            break
+                    if rt is None:
+                        continue
+                    inside_caps = False
+                    for s_ in blk[:rt + 1]:
+                        for n in ast.walk(s_):
+                            if isinstance(n, FuncTypes + (ast.Lambda, ast.GeneratorExp)) and _occ(n, b):
+                                inside_caps = True
+                    outer_caps = any(isinstance(n, FuncTypes + (ast.Lambda, ast.GeneratorExp)) and _occ(n, b)
+                                     for n in ast.walk(fn) if n is not fn
+                                     and not any(n is x for s_ in blk[rt + 1:] for x in ast.walk(s_)))
+                    if inside_caps or outer_caps:
+                        continue
+                    if sum(len(_occ(s, a)) for s in blk[i:rt + 1]) != len(_occ(fn, a)) or sum(len(_occ(s, b)) for s in blk[i + 1:rt]):
+                        continue
+                    for s in blk[i + 1:rt]:
+                        for n in _occ(s, a):
+                            n.id = b
+                    del blk[rt]
+                    del blk[i]
+                    changed = True
+                    break
                 # a free variable of this function (b is bound in an enclosing scope) must not become a local of it:
                 # only a name bound by this very copy may be replaced by it
                 own = {n.id for n in ast.walk(fn) if isinstance(n, ast.Name) and isinstance(n.ctx, (ast.Store, ast.Del))} \
